@@ -672,6 +672,10 @@ func (e Element) indentChildren() bool {
 		if _, isWhitespaceTrailer := n.(WhitespaceTrailer); !isWhitespaceTrailer {
 			return true
 		}
+		// A child element that is written over several lines takes its parent with it.
+		if child, isElement := n.(Element); isElement && child.indentChildren() {
+			return true
+		}
 	}
 	return false
 }
